@@ -17,7 +17,6 @@ import (
 	"github.com/datastax/go-cassandra-native-protocol/primitive"
 	"pgregory.net/rapid"
 
-	"verifharness/canon"
 	"verifharness/gen"
 	"verifharness/ref"
 	"verifharness/stats"
@@ -95,7 +94,7 @@ func c02Frames(rt *rapid.T) {
 	want := f.DeepCopy()
 	want.Header.Flags = hd.Flags
 	want.Header.BodyLength = int32(len(specBody))
-	if d := canon.Diff(want, dec); d != "" {
+	if d := diffFrames(want, dec); d != "" {
 		rt.Fatalf("specification-formatted bytes decode to a different frame: %s\n%s", d, renderFrame(fc, comp))
 	}
 	if compressed {
@@ -115,7 +114,7 @@ func c02Frames(rt *rapid.T) {
 			}
 			want2 := f.DeepCopy()
 			want2.Header.BodyLength = int32(len(cbody))
-			if d := canon.Diff(want2, dec2); d != "" {
+			if d := diffFrames(want2, dec2); d != "" {
 				rt.Fatalf("independently compressed body decodes to a different frame: %s", d)
 			}
 		}
